@@ -13,3 +13,11 @@ impl ProposalTable {
 }
 impl Shared { #[verifier::external_body] pub fn consensus(&self) -> (r: &Consensus) ensures *r == consensus_of(self) { unimplemented!() } }
 impl Consensus { #[verifier::external_body] pub fn tx_proposal_window(&self) -> (r: ProposalWindow) ensures r == window_of(self) { unimplemented!() } }
+// a block's OWN proposal ids, without its uncles' -- what a careless edit might insert instead of union_proposal_ids(); present so
+// that such an edit is DECIDED (the ids inserted are then not known to be the union) rather than a front-end error
+#[verifier::external_body] pub struct OwnIdVec { _x: u64 }
+#[verifier::external_body] pub struct OwnIdIter { _x: u64 }
+pub uninterp spec fn own_ids_of(v: &OwnIdVec) -> IdSet;
+impl PackedBlock { #[verifier::external_body] pub fn proposals(&self) -> (r: OwnIdVec) { unimplemented!() } }
+impl OwnIdVec { #[verifier::external_body] pub fn into_iter(self) -> (r: OwnIdIter) { unimplemented!() } }
+impl OwnIdIter { #[verifier::external_body] pub fn collect(self) -> (r: IdSet) { unimplemented!() } }
